@@ -871,9 +871,18 @@ class Element(object):
                 if not isinstance(value, ElementList):
                     children = value
                     value = ElementList(self)
+                old_children = self.__dict__.get('children')
                 super(Element, self).__setattr__(name, value)
-                for c in children:
-                    self.add(c)
+                try:
+                    for c in children:
+                        self.add(c)
+                except Exception:
+                    # a child has been refused: detach the ones already added and keep the previous children
+                    if old_children is not None:
+                        for c in value.list:
+                            c._parent = None
+                        super(Element, self).__setattr__(name, old_children)
+                    raise
             else:
                 super(Element, self).__setattr__(name, value)
         elif hasattr(self, 'children'):
